@@ -187,7 +187,8 @@ example : ∃ (q : TPar) (t : TemplP) (vm Tp b : ℝ), q.WF ∧ IsTemplateOf t q
   · rw [q0_alphaAt_one, hv, div_lt_one (by norm_num)]; nlinarith
 
 /-! ## T15.3'  `findMatching` (deflagration / hybrid branch): the closed forms satisfy the general junction
-conditions up to the `1e-100` regulators of `wFromAlpha` -/
+conditions up to the `1e-100` regulators of `wFromAlpha` (definition of `wFromAlpha` as of WallGo commit
+108cf41: sign factor `-1 if N·D < 0 else 1`) -/
 
 /-- T15.3'a. For the quadruple `(v₊, v₋, T₊, T₋)` returned by the template `findMatching` (deflagration /
 hybrid branch, after the root `v₊` is known) energy-flux conservation of the general solver holds exactly. -/
@@ -209,19 +210,21 @@ example : ∃ (q : TPar) (t : TemplP) (vp vm : ℝ), q.WF ∧ IsTemplateOf t q.h
     by norm_num, le_of_lt (wFromAlpha_pos ?_)⟩
   rw [t0_wNum, t0_wDen, t0_cb2]; norm_num [alphaCode]
 
-/-- `wFromAlpha` is positive when `N = (1−3αN)μ−ν` and `D = (1−3α₊)μ−ν` have the same non-zero sign. -/
-theorem wFromAlpha_positive {al : ℝ} (h : 0 < wNum t * wDen t al) : 0 < wFromAlpha t al :=
-  wFromAlpha_pos h
+/-- `wFromAlpha(α₊)` is positive **iff** `N·D ≥ 0`, where `N = (1−3αN)μ−ν`, `D = (1−3α₊)μ−ν` — including
+the cases `N = 0` or `D = 0`, where the code before WallGo commit 108cf41 (`np.sign(N)·np.sign(D)`)
+returned `0`. -/
+theorem wFromAlpha_positive {al : ℝ} : 0 < wFromAlpha t al ↔ 0 ≤ wNum t * wDen t al :=
+  wFromAlpha_pos_iff
 
-example : ∃ (t : TemplP) (al : ℝ), 0 < wNum t * wDen t al :=
-  ⟨t0, 1 / 10, by rw [t0_wNum, t0_wDen]; norm_num⟩
+example : ∃ (t : TemplP) (al : ℝ), 0 ≤ wNum t * wDen t al ∧ wDen t al = 0 :=
+  ⟨t0, 0, by rw [t0_wNum, t0_wDen]; norm_num, by rw [t0_wDen]; norm_num⟩
 
 /-- T15.3'b. Momentum-flux defect of the template `findMatching` quadruple in the general junction
 condition, exactly: `−wN/(μν)·(D·w₊ − N)` where `w₊ = wFromAlpha(α₊)` is the *regularised* ratio and
 `N/D` the exact one. (It vanishes iff `D·w₊ = N`.) -/
 theorem deflag_momentum_defect (hq : q.WF) (ht : IsTemplateOf t q.hydro) {vp vm : ℝ}
     (hvp : 0 < vp) (hvp1 : vp < 1) (hvm : 0 < vm) (hvm1 : vm < 1)
-    (hND : 0 < wNum t * wDen t (alphaCode vp vm t.cb2)) :
+    (hND : 0 ≤ wNum t * wDen t (alphaCode vp vm t.cb2)) :
     let r := deflagTpTm t vm vp
     (q.hydro.wHighT r.2.2.1 * gammaSq vp * vp ^ 2 + q.hydro.pHighT r.2.2.1)
       - (q.hydro.wLowT r.2.2.2 * gammaSq vm * vm ^ 2 + q.hydro.pLowT r.2.2.2)
@@ -235,7 +238,7 @@ theorem deflag_momentum_defect (hq : q.WF) (ht : IsTemplateOf t q.hydro) {vp vm 
   exact momentum_defect_TpOfW hq ht h1 hvm.ne' h2 hwp E
 
 example : ∃ (q : TPar) (t : TemplP) (vp vm : ℝ), q.WF ∧ IsTemplateOf t q.hydro ∧ 0 < vp ∧ vp < 1 ∧
-    0 < vm ∧ vm < 1 ∧ 0 < wNum t * wDen t (alphaCode vp vm t.cb2) := by
+    0 < vm ∧ vm < 1 ∧ 0 ≤ wNum t * wDen t (alphaCode vp vm t.cb2) := by
   refine ⟨q0, t0, 3 / 10, 1 / 2, q0_WF, t0_isTemplate, by norm_num, by norm_num, by norm_num,
     by norm_num, ?_⟩
   rw [t0_wNum, t0_wDen, t0_cb2]; norm_num [alphaCode]
@@ -244,7 +247,8 @@ example : ∃ (q : TPar) (t : TemplP) (vp vm : ℝ), q.WF ∧ IsTemplateOf t q.h
 satisfy the general solver's second junction condition up to the `1e-100` regulators. -/
 theorem deflag_momentum_defect_le (hq : q.WF) (ht : IsTemplateOf t q.hydro) {vp vm : ℝ}
     (hvp : 0 < vp) (hvp1 : vp < 1) (hvm : 0 < vm) (hvm1 : vm < 1)
-    (hND : 0 < wNum t * wDen t (alphaCode vp vm t.cb2)) :
+    (hND : 0 ≤ wNum t * wDen t (alphaCode vp vm t.cb2))
+    (hD : wDen t (alphaCode vp vm t.cb2) ≠ 0) :
     let r := deflagTpTm t vm vp
     |(q.hydro.wHighT r.2.2.1 * gammaSq vp * vp ^ 2 + q.hydro.pHighT r.2.2.1)
       - (q.hydro.wLowT r.2.2.2 * gammaSq vm * vm ^ 2 + q.hydro.pLowT r.2.2.2)|
@@ -258,13 +262,15 @@ theorem deflag_momentum_defect_le (hq : q.WF) (ht : IsTemplateOf t q.hydro) {vp 
     have := wN_pos hq ht; have := hq.mu_gt; have := hq.nu_gt
     positivity
   rw [abs_of_pos hpos, ← reg_eq]
-  exact mul_le_mul_of_nonneg_left (wFromAlpha_defect_le hND) hpos.le
+  exact mul_le_mul_of_nonneg_left (wFromAlpha_defect_le hND hD) hpos.le
 
 example : ∃ (q : TPar) (t : TemplP) (vp vm : ℝ), q.WF ∧ IsTemplateOf t q.hydro ∧ 0 < vp ∧ vp < 1 ∧
-    0 < vm ∧ vm < 1 ∧ 0 < wNum t * wDen t (alphaCode vp vm t.cb2) := by
+    0 < vm ∧ vm < 1 ∧ 0 ≤ wNum t * wDen t (alphaCode vp vm t.cb2) ∧
+    wDen t (alphaCode vp vm t.cb2) ≠ 0 := by
   refine ⟨q0, t0, 3 / 10, 1 / 2, q0_WF, t0_isTemplate, by norm_num, by norm_num, by norm_num,
-    by norm_num, ?_⟩
-  rw [t0_wNum, t0_wDen, t0_cb2]; norm_num [alphaCode]
+    by norm_num, ?_, ?_⟩
+  · rw [t0_wNum, t0_wDen, t0_cb2]; norm_num [alphaCode]
+  · rw [t0_wDen, t0_cb2]; norm_num [alphaCode]
 
 /-- T15.3'd. Regulator-free variant: if `T₊ = Tn·w₊^{1/μ}` is built from an enthalpy ratio with
 `D·w₊ = N` exactly (`w₊ = N/D > 0`), then `(v₊, v₋, T₊, _findTm(…))` satisfies *both* junction conditions of
@@ -302,6 +308,37 @@ theorem shooting_uses_same_alpha (vw vp : ℝ) :
     (deflagTpTm t (min t.cb vw) vp).2.2.1
       = t.Tnucl * WG.R.rpow (shootAlpha t vw vp).2.2 (1 / t.mu) := by
   simp only [shootAlpha, deflagTpTm, WG.R.pmin_eq_min, alphaCode, and_self]
+
+/-- T15.3'f. The upper bracket end `v₊ = vw` of `findMatching` for a bag-like template EOS (`μ = ν > 2`,
+`ε ≠ 0`) and a wall with `vw ≤ cb`: there `α₊ = 0`, `D = 0`, `_shooting` takes the branch `vw == vp`
+(`vpSW = vmSW = cs`) with `wmSW = w₊ = (|N| + 1e-100)/1e-100`, and its residual is **negative** — the sign of
+the true limit `v₊ → vw⁻` — so the bracket `(0, vw)` can contain a sign change. (Before WallGo commit 108cf41
+`np.sign(0) = 0` gave `w₊ = 0` and the positive residual `1 − 1/(μ−1)`; `findMatching` returned `None`.) -/
+theorem shooting_bracket_end_negative (hq : q.WF) (ht : IsTemplateOf t q.hydro) (hmn : q.mu = q.nu)
+    (hmu : 2 < q.mu) (heps : q.eps ≠ 0) {vw : ℝ} (hvw : 0 < vw) (hle : vw ≤ t.cb) :
+    (shootAlpha t vw vw).1 = vw ∧ (shootAlpha t vw vw).2.1 = 0 ∧
+    (shootAlpha t vw vw).2.2 = (|wNum t| + 1 / 10 ^ 100) / (1 / 10 ^ 100) ∧
+    shootResidual t t.cs t.cs (shootAlpha t vw vw).2.2 < 0 := by
+  have hmn' : t.mu = t.nu := by rw [mu_eq hq ht, nu_eq hq ht, hmn]
+  have hcs : t.cs ≠ 0 := by rw [ht.cs]; exact (Real.sqrt_pos.mpr (cs2_pos hq ht)).ne'
+  have hN : wNum t ≠ 0 := by
+    intro h0
+    have h := alN_N hq ht
+    unfold wNum at h0
+    rw [mu_eq hq ht, nu_eq hq ht] at h0
+    rw [h0, zero_mul] at h
+    have : q.mu * q.nu * q.eps ≠ 0 := by
+      have := hq.mu_gt; have := hq.nu_gt
+      positivity
+    exact this (by linarith)
+  have he := shootAlpha_endpoint_of_mu_eq_nu hmn' hvw.ne' hle
+  refine ⟨by rw [he], by rw [he], by rw [he, reg_eq], ?_⟩
+  exact shootResidual_endpoint_neg hmn' (by rw [mu_eq hq ht]; exact hmu) hcs hN hvw.ne' hle
+
+example : ∃ (q : TPar) (t : TemplP) (vw : ℝ), q.WF ∧ IsTemplateOf t q.hydro ∧ q.mu = q.nu ∧ 2 < q.mu ∧
+    q.eps ≠ 0 ∧ 0 < vw ∧ vw ≤ t.cb := by
+  refine ⟨q0, t0, 1 / 2, q0_WF, t0_isTemplate, rfl, by norm_num [q0], by norm_num [q0], by norm_num, ?_⟩
+  rw [t0_isTemplate.cb, t0_cb2]; apply Real.le_sqrt_of_sq_le; norm_num
 
 /-! ## T15.4  Detonations -/
 
